@@ -764,12 +764,6 @@ def no_brackets_deep(x):
     return x
 
 
-def fix_adjacent(E):
-    """insert nothing, but avoid constructs whose reading depends on what follows: a zero-argument word followed by '[' is fine;
-    \\\\ never occurs outside arrays; '\\sqrt' without optional argument must not be followed by '[' (it would be read as its option)"""
-    return E
-
-
 def math_streams(rng, tier, boost):
     out = []
     q = tier == 'quick'
